@@ -30,6 +30,8 @@ import (
 
 	metav1 "k8s.io/apimachinery/pkg/apis/meta/v1"
 	"k8s.io/apimachinery/pkg/runtime"
+	"k8s.io/apimachinery/pkg/watch"
+	clienttesting "k8s.io/client-go/testing"
 	"k8s.io/apimachinery/pkg/util/sets"
 	"k8s.io/apiserver/pkg/authentication/user"
 	"k8s.io/apiserver/pkg/authorization/authorizer"
@@ -176,6 +178,58 @@ type gateway struct {
 	// the name table as seen after EVERY write the controller makes to it (spy around the embedded clusters.Manager)
 	midMu sync.Mutex
 	mid   []ev
+	// the informer's connection to the API: while cut, lists and watches fail and the running watch is closed - what happens in between is
+	// never delivered as an event, the reflector finds it when it relists (a deletion then arrives as a cache.DeletedFinalStateUnknown)
+	netMu   sync.Mutex
+	cut     bool
+	watches []*cutWatch
+}
+
+type cutWatch struct {
+	inner watch.Interface
+	out   chan watch.Event
+	once  sync.Once
+	done  chan struct{}
+}
+
+func newCutWatch(inner watch.Interface) *cutWatch {
+	w := &cutWatch{inner: inner, out: make(chan watch.Event), done: make(chan struct{})}
+	go func() {
+		defer close(w.out)
+		for {
+			select {
+			case e, ok := <-inner.ResultChan():
+				if !ok {
+					return
+				}
+				select {
+				case w.out <- e:
+				case <-w.done:
+					return
+				}
+			case <-w.done:
+				return
+			}
+		}
+	}()
+	return w
+}
+func (w *cutWatch) Stop()                          { w.once.Do(func() { close(w.done); w.inner.Stop() }) }
+func (w *cutWatch) ResultChan() <-chan watch.Event { return w.out }
+
+func (g *gateway) setCut(cut bool) {
+	g.netMu.Lock()
+	g.cut = cut
+	ws := g.watches
+	if cut {
+		g.watches = nil
+	}
+	g.netMu.Unlock()
+	if cut {
+		for _, w := range ws {
+			w.Stop()
+		}
+	}
 }
 
 // spyManager passes everything through and lets the harness look at the table after each write
@@ -236,6 +290,28 @@ func newGateway(objs ...runtime.Object) *gateway { return newGatewaySpy(nil, obj
 
 func newGatewaySpy(spyHosts []string, objs ...runtime.Object) *gateway {
 	g := &gateway{client: gatewayfake.NewSimpleClientset(objs...), stop: make(chan struct{}), infos: map[*clusters.ClusterInfo]bool{}}
+	g.client.PrependReactor("list", "upstreamclusters", func(a clienttesting.Action) (bool, runtime.Object, error) {
+		g.netMu.Lock()
+		defer g.netMu.Unlock()
+		if g.cut {
+			return true, nil, fmt.Errorf("harness: connection to the API is cut")
+		}
+		return false, nil, nil
+	})
+	g.client.PrependWatchReactor("upstreamclusters", func(a clienttesting.Action) (bool, watch.Interface, error) {
+		g.netMu.Lock()
+		defer g.netMu.Unlock()
+		if g.cut {
+			return true, nil, fmt.Errorf("harness: connection to the API is cut")
+		}
+		inner, err := g.client.Tracker().Watch(a.GetResource(), a.GetNamespace())
+		if err != nil {
+			return true, nil, err
+		}
+		w := newCutWatch(inner)
+		g.watches = append(g.watches, w)
+		return true, w, nil
+	})
 	factory := gatewayinformers.NewSharedInformerFactory(g.client, 10*time.Minute) // non-zero resync: see harness notes
 	inf := factory.Proxy().V1alpha1().UpstreamClusters()
 	g.ctrl = controllers.NewUpstreamClusterController(inf, &proxyoptions.RateLimiterOptions{RateLimiter: "local"})
@@ -474,6 +550,11 @@ func runScenario(t *testing.T, sc scenario) (events []ev) {
 				time.Sleep(time.Duration(s.Ms) * time.Millisecond)
 				synctest.Wait()
 				events = append(events, ev{"k": "sleep", "ms": s.Ms})
+			case "cut", "heal":
+				synctest.Wait()
+				gw.setCut(s.K == "cut")
+				synctest.Wait()
+				events = append(events, ev{"k": s.K})
 			case "obs":
 				obsIdx++
 				synctest.Wait()
